@@ -3610,16 +3610,17 @@ fn zip_write_once(dest: &Subject, work: &str, tag: &str, h: Hash, bytes: &[u8]) 
 	}
 }
 
-/// state sync of a fresh node from `segmenter`, every requested segment served honestly and in
-/// the order asked: Ok(rounds) when `validate_complete_state` succeeded
-fn plain_pibd(dest: &Subject, segmenter: &grin_chain::txhashset::Segmenter, ah: &grin_core::core::BlockHeader) -> Result<u64, String> {
+/// up to `max_rounds` rounds of the sync loop against `segmenter`, every requested segment served
+/// honestly and in the order asked: Ok(Some(rounds)) when `check_progress` reported completion,
+/// Ok(None) when the rounds ran out first
+fn pibd_rounds(dest: &Subject, segmenter: &grin_chain::txhashset::Segmenter, ah: &grin_core::core::BlockHeader, max_rounds: u64) -> Result<Option<u64>, String> {
 	let deseg = dest.c().desegmenter(ah).map_err(|e| format!("desegmenter: {}", error_class(&e)))?;
 	let mut rounds = 0u64;
 	loop {
-		rounds += 1;
-		if rounds > 80 {
-			return Err("not complete after 80 rounds of honest service".to_string());
+		if rounds >= max_rounds {
+			return Ok(None);
 		}
+		rounds += 1;
 		let mut guard = deseg.write();
 		let d = guard.as_mut().ok_or("no desegmenter")?;
 		for sid in d.next_desired_segments(15) {
@@ -3639,17 +3640,42 @@ fn plain_pibd(dest: &Subject, segmenter: &grin_chain::txhashset::Segmenter, ah: 
 			Err(m) => return Err(format!("apply_next_segments panicked: {}", m)),
 		}
 		if matches!(d.check_progress(Arc::new(SyncState::new())), Ok(true)) {
-			break;
+			return Ok(Some(rounds));
 		}
 	}
+}
+
+/// the end of a state sync as `StateSync` does it: leaf sets, then `validate_complete_state`
+fn pibd_finalize(dest: &Subject, ah: &grin_core::core::BlockHeader) -> Result<(), String> {
+	let deseg = dest.c().desegmenter(ah).map_err(|e| format!("desegmenter: {}", error_class(&e)))?;
 	let guard = deseg.read();
 	let d = guard.as_ref().ok_or("no desegmenter")?;
 	d.check_update_leaf_set_state().map_err(|e| format!("check_update_leaf_set_state: {}", error_class(&e)))?;
 	match catch(AssertUnwindSafe(|| d.validate_complete_state(Arc::new(SyncState::new()), Arc::new(StopState::new())))) {
-		Ok(Ok(())) => Ok(rounds),
+		Ok(Ok(())) => Ok(()),
 		Ok(Err(e)) => Err(format!("validate_complete_state: {}", error_class(&e))),
 		Err(m) => Err(format!("validate_complete_state panicked: {}", m)),
 	}
+}
+
+/// state sync of a fresh node from `segmenter`: Ok(rounds) when `validate_complete_state` succeeded
+fn plain_pibd(dest: &Subject, segmenter: &grin_chain::txhashset::Segmenter, ah: &grin_core::core::BlockHeader) -> Result<u64, String> {
+	match pibd_rounds(dest, segmenter, ah, 80)? {
+		Some(rounds) => pibd_finalize(dest, ah).map(|_| rounds),
+		None => Err("not complete after 80 rounds of honest service".to_string()),
+	}
+}
+
+/// what `StateSync::check_run` does when the sync state says "errored": forget everything and start again
+fn pibd_restart(dest: &Subject, ah: &grin_core::core::BlockHeader) -> Result<(), String> {
+	let deseg = dest.c().desegmenter(ah).map_err(|e| format!("desegmenter: {}", error_class(&e)))?;
+	if let Some(d) = deseg.write().as_mut() {
+		d.reset();
+	}
+	dest.c().reset_pibd_head().map_err(|e| format!("reset_pibd_head: {}", error_class(&e)))?;
+	dest.c().reset_chain_head_to_genesis().map_err(|e| format!("reset_chain_head_to_genesis: {}", error_class(&e)))?;
+	dest.c().reset_prune_lists().map_err(|e| format!("reset_prune_lists: {}", error_class(&e)))?;
+	Ok(())
 }
 
 /// grow the source chain by `n` blocks on top of `tip`, each spending up to two outputs that are
@@ -3790,6 +3816,13 @@ fn zip_mode(out: &mut Out, rng: &mut Rng, thorough: bool) {
 		let live_leaf = |tree: &str| -> Vec<u8> { std::fs::read(std::path::Path::new(&kit.dir).join("txhashset").join(tree).join("pmmr_leaf.bin")).unwrap_or_default() };
 		let get = |v: &Vec<ZEntry>, n: &str| -> Option<usize> { v.iter().position(|e| e.name == n) };
 
+		let seg_a0 = match kit.builder().segmenter() {
+			Ok(s) => s,
+			Err(e) => {
+				out.raw(&format!("#ORACLE-FAIL C16 zip {}: Chain::segmenter failed: {}", name, error_class(&e)));
+				continue;
+			}
+		};
 		st.add("millis:archive-read", t0.elapsed().as_millis() as u64);
 		// ---- receiving side
 		// (variant name, archive, must the honest state result? Some(true) = must be accepted,
@@ -3985,6 +4018,58 @@ fn zip_mode(out: &mut Out, rng: &mut Rng, thorough: bool) {
 			let _ = std::fs::remove_dir_all(format!("{}/{}", work, tag));
 		}
 
+		// ---- an interrupted / errored PIBD attempt, then: restart (as StateSync does), or fall back to the archive
+		{
+			let ah = archive.clone();
+			// assemble with small segments so that the attempt can be cut anywhere
+			grin_chain::pibd_params::verif_hooks::set_segment_heights(Some((0, 2, 2, 1)));
+			let cuts: Vec<u64> = if thorough { vec![1, 2, 3, 5, 9, 200] } else { vec![2, 5, 200] };
+			for (ci, cut) in cuts.iter().enumerate() {
+				for fallback in [false, true] {
+					let tag = format!("restart_dst_{}_{}_{}", name, ci, fallback as u8);
+					let dest = match fresh_receiver(&work, &tag, &kit, &headers) {
+						Some(d) => d,
+						None => continue,
+					};
+					let first = pibd_rounds(&dest, &seg_a0, &ah, *cut);
+					let how = match &first {
+						Ok(Some(_)) => "all-segments-applied",
+						Ok(None) => "cut-midway",
+						Err(_) => "attempt-failed",
+					};
+					if let Err(e) = &first {
+						out.raw(&format!("#ORACLE-FAIL C16 restart {}: honest state sync with small segments failed: {}", name, e));
+					}
+					st.inc(&format!("restart:first-attempt:{}", how));
+					let res: Result<(), String> = if fallback {
+						// give up on PIBD: the state archive on top of whatever the attempt left behind
+						let r = zip_write_once(&dest, &work, &tag, ah.hash(), &bytes);
+						if r == "replaced" {
+							Ok(())
+						} else {
+							Err(format!("txhashset_write after an abandoned PIBD attempt: {}", r))
+						}
+					} else {
+						pibd_restart(&dest, &ah).and_then(|_| plain_pibd(&dest, &seg_a0, &ah).map(|_| ()))
+					};
+					let got = node_obs(&dest, &kit);
+					match res {
+						Ok(()) if got == ref_obs => st.inc(&format!("restart:{}:equal-to-block-by-block", if fallback { "archive-fallback" } else { "pibd-again" })),
+						Ok(()) => out.raw(&format!(
+							"#ORACLE-FAIL C16 restart {}: PIBD attempt cut after {} rounds ({}), then {}: final state differs from block-by-block: roots {} vs {}, unspent {:?} vs {:?}, validation {} vs {}",
+							name, cut, how, if fallback { "the state archive" } else { "reset + PIBD again" }, got.1, ref_obs.1, got.2, ref_obs.2, got.3, ref_obs.3
+						)),
+						Err(e) => out.raw(&format!(
+							"#ORACLE-FAIL C16 restart {}: PIBD attempt cut after {} rounds ({}), then {}: {}",
+							name, cut, how, if fallback { "the state archive" } else { "reset + PIBD again" }, e
+						)),
+					}
+					drop(dest);
+					let _ = std::fs::remove_dir_all(format!("{}/{}", work, tag));
+				}
+			}
+			grin_chain::pibd_params::verif_hooks::set_segment_heights(None);
+		}
 		st.add("millis:variants-done", t0.elapsed().as_millis() as u64);
 		// ---- life cycle of the cached segmenter while the serving chain grows
 		let seg_a = match kit.builder().segmenter() {
@@ -3999,10 +4084,16 @@ fn zip_mode(out: &mut Out, rng: &mut Rng, thorough: bool) {
 		}
 		let mut twin_at = archive.height;
 		let mut prev_archive = archive.clone();
-		let steps: Vec<(u64, bool)> = if thorough { vec![(4, false), (7, false), (10, true), (3, false)] } else { vec![(4, false), (8, compact)] };
-		for (si, (n_blocks, compact_now)) in steps.iter().enumerate() {
+		// NB the source is compacted again only at heads with (head - 20) % 10 == 0: under AutomatedTesting
+		// state_sync_threshold == cut_through_horizon == 20, so at any other head the archive header lies
+		// BELOW the compaction horizon and the source has (rightly) compacted away outputs that were
+		// unspent at the archive header -- unreachable with mainnet parameters (2 days vs 1 week)
+		let steps: Vec<u64> = if thorough { vec![4, 6, 3, 7, 5] } else { vec![4, 6] };
+		for (si, n_blocks) in steps.iter().enumerate() {
 			grow(&mut kit, rng, &mut st, &mut tip, &mut trunk, *n_blocks);
+			let compact_now = &(compact && kit.blks[tip].height % 10 == 0);
 			if *compact_now {
+				st.inc("lifecycle:source-compacted-again");
 				if let Err(e) = kit.builder().compact() {
 					out.raw(&format!("#ORACLE-FAIL C16 lifecycle harness: source compaction failed: {}", error_class(&e)));
 				}
